@@ -31,7 +31,7 @@ func init() { translators["dispatch"] = xlateDispatch }
 type dispatchRow struct {
 	req, rmKey, method, resp, respID string
 	args, fields                     [][2]string
-	errReturns                       bool
+	errMode, rcErr, rcOk             int
 	sends                            int
 }
 
@@ -206,11 +206,44 @@ func xlateDispatch(repo, out string) {
 					if printNode(fset, ce.Args[1]) != "branchResource" {
 						bad("%s: manager argument %s", pname, printNode(fset, ce.Args[1]))
 					}
-					// the statement right after must be `if err != nil { ...; return err }`
+					// the statement right after the manager call decides what a failure does:
+					//   if err != nil { ...; return err }                                       -> 1 (silence)
+					//   if err != nil { ...; if status == branch.BranchStatusUnknown { return err } } [else { log }]
+					//                                                                           -> 2 (silence without a status)
 					if i+1 < len(fd.Body.List) {
-						if is, ok := fd.Body.List[i+1].(*ast.IfStmt); ok && printNode(fset, is.Cond) == "err != nil" && is.Else == nil && len(is.Body.List) > 0 {
-							if rs, ok := is.Body.List[len(is.Body.List)-1].(*ast.ReturnStmt); ok && len(rs.Results) == 1 && printNode(fset, rs.Results[0]) == "err" {
-								row.errReturns = true
+						if is, ok := fd.Body.List[i+1].(*ast.IfStmt); ok && printNode(fset, is.Cond) == "err != nil" && len(is.Body.List) > 0 {
+							onlyLogs := func(l []ast.Stmt) bool {
+								for _, x := range l {
+									es, ok := x.(*ast.ExprStmt)
+									if !ok || !strings.HasPrefix(printNode(fset, es), "log.") {
+										return false
+									}
+								}
+								return true
+							}
+							elseOK := is.Else == nil
+							if eb, ok := is.Else.(*ast.BlockStmt); ok && onlyLogs(eb.List) {
+								elseOK = true
+							}
+							isRetErr := func(x ast.Stmt) bool {
+								rs, ok := x.(*ast.ReturnStmt)
+								return ok && len(rs.Results) == 1 && printNode(fset, rs.Results[0]) == "err"
+							}
+							n := len(is.Body.List)
+							lastSt := is.Body.List[n-1]
+							switch {
+							case elseOK && onlyLogs(is.Body.List[:n-1]) && isRetErr(lastSt):
+								row.errMode = 1
+							case elseOK && onlyLogs(is.Body.List[:n-1]):
+								if inner, ok := lastSt.(*ast.IfStmt); ok && inner.Else == nil && inner.Init == nil &&
+									printNode(fset, inner.Cond) == statusVar+" == branch.BranchStatusUnknown" &&
+									len(inner.Body.List) == 1 && isRetErr(inner.Body.List[0]) {
+									row.errMode = 2
+								} else {
+									bad("%s: error handling after the manager call: %s", pname, printNode(fset, is))
+								}
+							default:
+								bad("%s: error handling after the manager call: %s", pname, printNode(fset, is))
 							}
 						}
 					}
@@ -241,6 +274,49 @@ func xlateDispatch(repo, out string) {
 						return true
 					})
 				}
+			}
+			// result code: `if err != nil { resultCode = A; ... } else { resultCode = B }` and `ResultCode: resultCode`
+			row.rcErr, row.rcOk = 9, 9
+			rcOf := func(l []ast.Stmt) int {
+				v := 9
+				for _, x := range l {
+					if as, ok := x.(*ast.AssignStmt); ok && len(as.Lhs) == 1 && len(as.Rhs) == 1 && printNode(fset, as.Lhs[0]) == "resultCode" {
+						switch printNode(fset, as.Rhs[0]) {
+						case "message.ResultCodeFailed":
+							v = 0
+						case "message.ResultCodeSuccess":
+							v = 1
+						default:
+							v = 9
+						}
+					}
+				}
+				return v
+			}
+			for _, st := range fd.Body.List {
+				is, ok := st.(*ast.IfStmt)
+				if !ok || printNode(fset, is.Cond) != "err != nil" {
+					continue
+				}
+				eb, ok := is.Else.(*ast.BlockStmt)
+				if !ok || rcOf(is.Body.List) == 9 {
+					continue
+				}
+				row.rcErr, row.rcOk = rcOf(is.Body.List), rcOf(eb.List)
+			}
+			if !strings.Contains(printNode(fset, fd.Body), "ResultCode: resultCode,") {
+				bad("%s: the response's ResultCode is not the resultCode variable", pname)
+				row.rcErr, row.rcOk = 9, 9
+			}
+			nAssign := 0
+			ast.Inspect(fd.Body, func(n ast.Node) bool {
+				if as, ok := n.(*ast.AssignStmt); ok && len(as.Lhs) == 1 && printNode(fset, as.Lhs[0]) == "resultCode" {
+					nAssign++
+				}
+				return true
+			})
+			if nAssign != 2 {
+				bad("%s: resultCode assigned %d times", pname, nAssign)
 			}
 			ast.Inspect(fd.Body, func(n ast.Node) bool {
 				ce, ok := n.(*ast.CallExpr)
@@ -327,10 +403,7 @@ func xlateDispatch(repo, out string) {
 			sb.WriteString(";\n")
 		}
 		if row, ok := rows[p]; ok {
-			b := "false"
-			if row.errReturns {
-				b = "true"
-			}
+			b := fmt.Sprintf("%d %d %d", row.errMode, row.rcErr, row.rcOk)
 			fmt.Fprintf(&sb, "  (%d, PPhase2 (mkRow %s %s %s\n      %s\n      %s %s\n      %s\n      %s %d%%nat))",
 				c, coqStr(row.req), coqStr(row.rmKey), coqStr(row.method), dispatchPairs(row.args), b, coqStr(row.resp),
 				dispatchPairs(row.fields), coqStr(row.respID), row.sends)
